@@ -124,7 +124,9 @@ class InputModified(Exception):
 def run_impl(c):
     mm = c['mm'] if not c.get('mm_type') else getattr(np, c['mm_type'])(c['mm'])        # min_match also as a NumPy integer scalar (typed parameter records)
     m = grm.Matcher(tolerance=c['tol'], min_weight=c['mw'], min_match=mm)
-    args = dict(centers=c['pos'].copy(), refineds=c['pos'].copy(), peak_values=c['w'].copy(), peak_elevations=c['w'].copy(),
+    # the production form: whole-pixel centres next to the sub-pixel refined positions (matching and fitting use the refined ones)
+    cen = np.where(np.isfinite(c['pos']), np.rint(c['pos']), c['pos']) if c.get('int_centers') else c['pos'].copy()
+    args = dict(centers=cen, refineds=c['pos'].copy(), peak_values=c['w'].copy(), peak_elevations=c['w'].copy(),
                 zero=c['start'][0].copy(), a=c['start'][1].copy(), b=c['start'][2].copy())
     before = {k: v.copy() for k, v in args.items()}
     r = m.fastmatch(**args)
@@ -292,7 +294,7 @@ def adversarial(rng):
 
 def mk_replay(c, fail):
     return {'kind': 'input', 'call': 'Matcher.fastmatch', 'args': {'pos': c['pos'].tolist(), 'w': c['w'].tolist(), 'kinds': c['kinds'], 'true_idx': c['true_idx'],
-            'start': [v.tolist() for v in c['start']], 'tol': c['tol'], 'mw': c['mw'], 'mm': c['mm'], 'complete': bool(c.get('complete', True)), 'owed': c.get('owed'), 'pos_dtype': str(c['pos'].dtype), 'mm_type': c.get('mm_type')}, 'failure': fail}
+            'start': [v.tolist() for v in c['start']], 'tol': c['tol'], 'mw': c['mw'], 'mm': c['mm'], 'complete': bool(c.get('complete', True)), 'owed': c.get('owed'), 'pos_dtype': str(c['pos'].dtype), 'mm_type': c.get('mm_type'), 'int_centers': bool(c.get('int_centers'))}, 'failure': fail}
 
 
 def adversarial_failure(desc):
@@ -329,7 +331,7 @@ def replay(body):
             return 1
         return 0
     c = dict(pos=np.array(a['pos'], dtype=a.get('pos_dtype', 'float64')), w=np.array(a['w']), kinds=a['kinds'], true_idx=[None if t is None else tuple(t) for t in a['true_idx']],
-             start=tuple(np.array(v) for v in a['start']), tol=a['tol'], mw=a['mw'], mm=a['mm'], complete=a.get('complete', True), owed=a.get('owed'), mm_type=a.get('mm_type'))
+             start=tuple(np.array(v) for v in a['start']), tol=a['tol'], mw=a['mw'], mm=a['mm'], complete=a.get('complete', True), owed=a.get('owed'), mm_type=a.get('mm_type'), int_centers=a.get('int_centers', False))
     fail = defaults_failure(c) if a.get('defaults') else stmt_failure(c)
     print(json.dumps({'failure_now': fail}, indent=1))
     if fail:
@@ -430,6 +432,8 @@ def run(ctx):
     # (S) statement + covariance + adversarial
     for k in range(ctx.n(300, 10000)):
         c = gen(rng)
+        if k % 3 == 2:
+            c['int_centers'] = True
         if k % 6 == 1:
             c['mm_type'] = ['uint8', 'int64', 'uint16', 'int32', 'uint64'][(k // 6) % 5]
         if k % 7 == 3:
